@@ -2,6 +2,7 @@ from enum import Enum
 from functools import lru_cache
 from math import ceil, prod
 import copy
+import itertools
 import re
 import resource
 from sympy.core.symbol import Symbol
@@ -150,9 +151,16 @@ def expr_replace(f: Expr, old: sympy.Function, new: Expr) -> Expr:
 
 
 def partition_heaviside(f: Expr) -> tuple[Expr, ...]:
-    if f.has(sympy.Heaviside):
-        return expr_replace(f, sympy.Heaviside, 1), expr_replace(f, sympy.Heaviside, 0)
-    return (f,)
+    # Every Heaviside factor is 0 or 1 independently of the others (the derivative of
+    # Max(a, b) is a'*Heaviside(a - b) + b'*Heaviside(b - a): exactly one of them is on),
+    # so all combinations must be examined, not just "all on" and "all off".
+    steps = sorted(f.atoms(sympy.Heaviside), key=str)
+    if not steps:
+        return (f,)
+    return tuple(
+        sympy.sympify(f.xreplace(dict(zip(steps, map(sympy.Integer, bits)))))
+        for bits in itertools.product((1, 0), repeat=len(steps))
+    )
 
 
 # @lru_cache(maxsize=10000)
